@@ -412,3 +412,7 @@ func textOf(t *Term, param string) bool {
 	va := args[1]
 	return va.Op == "varargs" && len(va.Args) == 1 && va.Args[0].Contains(func(x *Term) bool { return x.Op == "param" && x.Name == param }) && !va.Args[0].Contains(func(x *Term) bool { return x.Op == "call" })
 }
+
+// "the comparison used by WHERE, ORDER BY, IN and joins": the consumers decide on compare.Compare's verdict
+// (operator table, membership oracle, BETWEEN, ORDER BY comparator with NULL only for the untyped nil)
+func init() { register("C15", ruleC01CmpTable, ruleC01Membership, ruleC01Between, ruleC05LessTable) }
